@@ -35,7 +35,10 @@ def sh(cmd, cwd=None, env=None, timeout=1800):
 
 def setup():
     os.makedirs(WORK, exist_ok=True)
-    sh(["rsync", "-a", "--delete", "--exclude", ".git", "/repo/", REPO + "/"])
+    # the committed state of /repo (its working tree may carry a patch somebody is trying right now)
+    shutil.rmtree(REPO, ignore_errors=True)
+    os.makedirs(REPO, exist_ok=True)
+    subprocess.run("git -C /repo archive HEAD | tar -x -C " + REPO, shell=True, check=True)
     sh(["rsync", "-a", "--delete", "--exclude", ".git", "--exclude", "replay", "--exclude", "seeded", "--exclude", "build/cases",
         "/verif/", VERIF + "/"])
     os.makedirs(os.path.join(VERIF, "replay"), exist_ok=True)
